@@ -7,7 +7,7 @@ import itertools
 from vlib.core import Case
 from vlib.symx import AND, OR, NOT, IMPLIES, IFF, EQ, SUM, B2I, is_sym
 
-from krrood.entity_query_language.entity import entity, set_of
+from krrood.entity_query_language.entity import entity, set_of, let, and_, or_, not_
 from krrood.entity_query_language.quantify_entity import an
 from krrood.entity_query_language.failures import NoSolutionFound, MultipleSolutionFound
 from krrood.entity_query_language import symbolic as S
@@ -153,6 +153,26 @@ def shape_list(tier):
             add(("not", (op, p, X[0])), False)
     add(("or", ("pred", x, 0), ("isa", x)), False)
     add(("and", ("or", ("pred", x, 0), X[0]), Y[0]), False)
+    # a partially ordered attribute under negation inside and_/or_ (De Morgan) and next to its own negation
+    S1 = ("cmp", "<", ("s", x), ("slit", 1))
+    S2 = ("cmp", "<=", ("s", x), ("s", y))
+    for sa in (S1, S2):
+        add(("and", ("not", sa), X[1]), sa is S1)
+        add(("not", ("and", sa, X[0])), False)
+        add(("or", sa, ("not", sa)), False)
+        add(("not", ("or", sa, X[0])), False)
+    # one attribute expression node used as an operand of comparisons and, on its own, as a condition (its truth value)
+    SA = ("sa", x)
+    T = ("truthy", SA)
+    G = ("cmp", ">=", SA, ("lit", 0))
+    L = ("cmp", "<", SA, ("lit", 0))
+    add(T, False)
+    add(("and", G, T))
+    add(("and", T, G), False)
+    add(("and", ("and", G, L), T), False)
+    add(("or", ("and", G, T), ("cmp", "==", SA, ("lit", 0))), False)
+    add(("and", ("cmp", "==", SA, ("a", y)), ("truthy", ("sa", y))), False)
+    add(("and", T, ("cmp", "==", SA, ("a", y))), False)
     # depth 3
     small = [(X[0], X[1]), (X[0], Y[0]), (XY[0], X[1]), (X[1], XY[1])]
     for (l, r) in small:
@@ -196,7 +216,7 @@ def make_cases(tier, count=False, fragment=None):
         for sel in selections(cond, extra=core):
             for veq in (False, True):
                 f = features(cond)
-                if veq and (f & {"kidv", "val0", "m", "p2", "the"} or not core):
+                if veq and (f & {"kidv", "val0", "m", "p2", "the", "s"} or not core):
                     continue
                 name = "%s(%s|%s)%s" % (sel[0], ",".join(sel[1]), show(cond), "|value-eq" if veq else "")
                 if name in seen:
@@ -218,10 +238,70 @@ def make_cases(tier, count=False, fragment=None):
     return cs
 
 
+
+# ---------------------------------------------------------------------------------------------
+# a variable over plain values (ints): the variable itself is an operand of comparisons and, on its own, a condition
+# ---------------------------------------------------------------------------------------------
+INT_SHAPES = {
+    "n": (lambda n, m, k: (n,), lambda v, u, k: NOT(EQ(v, 0))),
+    "and(n>=k0,n)": (lambda n, m, k: (and_(n >= k[0], n),), lambda v, u, k: AND(v >= k[0], NOT(EQ(v, 0)))),
+    "and(n,n>=k0)": (lambda n, m, k: (and_(n, n >= k[0]),), lambda v, u, k: AND(v >= k[0], NOT(EQ(v, 0)))),
+    "n>=k0,n<k1,n": (lambda n, m, k: (n >= k[0], n < k[1], n), lambda v, u, k: AND(v >= k[0], v < k[1], NOT(EQ(v, 0)))),
+    "or(and(n>=k0,n),n==k1)": (lambda n, m, k: (or_(and_(n >= k[0], n), n == k[1]),), lambda v, u, k: OR(AND(v >= k[0], NOT(EQ(v, 0))), EQ(v, k[1]))),
+    "not(n)": (lambda n, m, k: (not_(n),), lambda v, u, k: EQ(v, 0)),
+    "and(n==m,m)": (lambda n, m, k: (and_(n == m, m),), lambda v, u, k: AND(EQ(v, u), NOT(EQ(u, 0)))),
+    "and(m,n==m)": (lambda n, m, k: (and_(m, n == m),), lambda v, u, k: AND(EQ(v, u), NOT(EQ(u, 0)))),
+    "n==k0": (lambda n, m, k: (n == k[0],), lambda v, u, k: EQ(v, k[0])),
+}
+
+
+class Num(int):
+    """an int that is an object of its own (CPython shares small int objects; domain elements are told apart by identity)"""
+
+
+def _num(v):
+    return v if is_sym(v) else Num(v)
+
+
+def int_harness(name, N):
+    build, truth = INT_SHAPES[name]
+    two = "m" in name
+
+    def h(ctx):
+        nv = ctx.choice("nn", N + 1)
+        vals = [_num(ctx.fresh_int("n%d" % i)) for i in range(nv)]
+        mvals = [_num(ctx.fresh_int("m%d" % i)) for i in range(ctx.choice("nm", N + 1))] if two else [0]
+        k = [ctx.fresh_int("k%d" % i) for i in range(2)]
+        n = let(object, vals, name="n")  # (object: the symbolic ints of the engine are not instances of int)
+        m = let(object, mvals, name="m") if two else None
+        rows, crash = [], None
+        try:
+            for r in an(entity(n, *build(n, m, k))).evaluate():
+                rows.append(index_of(vals, r))
+        except Exception as e:
+            crash = "%s: %s" % (type(e).__name__, str(e)[:80])
+        sfx = "[some-domain-empty]" if (not vals or not mvals) else ""
+        ctx.observe(rows, crash)
+        ctx.note("nonempty", bool(rows))
+        v = {}
+        if crash is not None:
+            v["no-exception" + sfx] = False
+            return v
+        t = [OR([truth(vv, u, k) for u in mvals]) for vv in vals]
+        v["rows-are-domain-elements" + sfx] = all(i >= 0 for i in rows)
+        v["sound" + sfx] = AND([t[i] for i in set(rows) if i >= 0]) if rows else True
+        v["complete" + sfx] = AND([IMPLIES(t[i], i in rows) for i in range(len(vals))])
+        return v
+
+    return h
+
+
 def cases(tier, seed):
     from vlib.core import select_cases
 
-    return select_cases(make_cases(tier), tier, seed, extra_quick=40)
+    N = 2 if tier == "quick" else 3
+    ints = [Case("entity(n:int|%s)|N<=%d" % (nm, N), int_harness(nm, N), key="entity(n:int|%s)" % nm, reset=eql_reset, validate=1, core=True) for nm in INT_SHAPES]
+    return select_cases(make_cases(tier), tier, seed, extra_quick=40) + ints
 
 
 def describe(tier):
@@ -229,10 +309,10 @@ def describe(tier):
     return dict(
         rule="query shapes from the grammar cond ::= atom | and_ | or_ | not_ | exists | for_all (depth <= 3) over variables x, y, z (P objects) and w (Q pool), "
         "atoms: comparisons of attributes / attribute chains / indexed / called values with symbolic literals or other variables' attributes, in_, contains, "
-        "HasType, a Predicate subclass, a nested the(...) sub-query; each with every selection (entity(x), entity(y), set_of([x,y]), unmentioned selected "
+        "HasType, a Predicate subclass, a nested the(...) sub-query, an expression on its own as a condition (its truth value; one shared attribute node, or a variable over plain ints), order comparisons over a partially ordered attribute (sets); each with every selection (entity(x), entity(y), set_of([x,y]), unmentioned selected "
         "variable, set_of([x, x.kid])); identity-eq and value-eq dataclasses; quick = core set + seeded slice, thorough = all; "
         "non-trivial = >= 2 feasible paths and a non-empty result on some path",
         bounds=dict(objects_per_domain="0..%d (symbolic)" % N, attribute_values_and_literals="unbounded integers", depth="<= 3", variables="<= 3 + quantified"),
-        outside=["strings/floats as attribute values", "== between two collections", "attribute access on None", "more than %d objects per domain" % N, "variables over plain ints"],
+        outside=["strings/floats as attribute values", "== between two collections", "attribute access on None", "more than %d objects per domain" % N],
         assumptions=["unselected free variables are read existentially (property statement)", "result order is not asserted"],
     )
